@@ -2,6 +2,7 @@
    Spec.v (reference map and simulation lemma); heap-level (pointer) models of
    ModelHeap.v: ProofsHeapAvl.v (representation, the four rotations, rebalance),
    ProofsHeapIns.v (insertion), ProofsHeapRem.v (removal: unlink + retracing),
+   ProofsHeapSwap.v (removal: the data-swap loop, arbitrary nodes, every history),
    ProofsHeapHt.v (hash chains). *)
 From MV Require Export C09.Model C09.ModelHeap C09.Spec C09.ProofsAvl C09.ProofsHt C09.ProofsTrie
-  C09.ProofsHeapAvl C09.ProofsHeapIns C09.ProofsHeapRem C09.ProofsHeapHt.
+  C09.ProofsHeapAvl C09.ProofsHeapIns C09.ProofsHeapRem C09.ProofsHeapSwap C09.ProofsHeapHt.
